@@ -346,7 +346,8 @@ def gen_creation(rng, data):
         existing = set(str(k) for k in node.keys()) if isinstance(node, dict) else set()
     for j in range(rng.randrange(1, 4)):
         if cur_kind == "map":
-            k = rng.choice(["n1", "n2", "zz", "new", "k9"] + (["7", "0"] if j else []))
+            # (also names that must be escaped in a path: the created key is the *unescaped* text)
+            k = rng.choice(["n1", "n2", "zz", "new", "k9", "a.b", "x/y", "sp ace", "app.example.com"] + (["7", "0"] if j else []))
             while k in existing:
                 k = k + "x"
             tail.append(("KEY", k))
